@@ -212,7 +212,8 @@ func (g *ggraph) render() map[string]string {
 				case "starns":
 					imports = append(imports, fmt.Sprintf("export * as %s_ns from '%s';", T, spec))
 				case "dyn":
-					body = append(body, fmt.Sprintf("const %s_dyn = await import('%s'); log('%s dyn %s', %s_dyn.x !== undefined ? %s_dyn.x : (%s_dyn.default && %s_dyn.default.x));", T, spec, id, T, T, T, T, T))
+					// also observes which object became "default" (module.exports under Node's interop, exports.default under Babel's)
+					body = append(body, fmt.Sprintf("const %s_dyn = await import('%s'); log('%s dyn %s', %s_dyn.x !== undefined ? %s_dyn.x : (%s_dyn.default && %s_dyn.default.x), typeof %s_dyn.default, %s_dyn.default && %s_dyn.default.marker, %s_dyn.default && typeof %s_dyn.default.default);", T, spec, id, T, T, T, T, T, T, T, T, T, T))
 				}
 			} else {
 				switch e.kind {
